@@ -97,6 +97,49 @@ def run_case(case):
             for serial in (True, False):
                 runs.append((fields, limit, serial))
 
+    def cli_argv(fields, limit, serial):
+        argv = ['mandoline', 'plt', '--variables'] + list(fields) + ['--format', 'array', '--output', 'flat']
+        if limit is not None:
+            argv += ['--max_level', str(limit)]
+        if serial:
+            argv += ['--serial']
+        return argv
+
+    def one_cli(fields, limit, serial):
+        """The command-line entry point in array format: the saved .npz must hold what fformat='return' returns."""
+        def path(ctx):
+            fs = SymFS()
+            ref.write_symfs(fs, '/work/plt')
+            obl = Obl(ctx)
+            what = ' '.join(cli_argv(fields, limit, serial))
+            import sys
+            with patch.Patched(mods, fs), common.quiet():
+                old_argv = sys.argv
+                sys.argv = cli_argv(fields, limit, serial)
+                try:
+                    mods['amr_kitchen.mandoline.cli'].main()
+                except SystemExit as e:
+                    obl.fail('%s exited with %r' % (what, e.code))
+                    return obl
+                except Exception as e:
+                    obl.fail('%s raised %s: %s' % (what, type(e).__name__, str(e)[:120]))
+                    return obl
+                finally:
+                    sys.argv = old_argv
+                node = None
+                for cand in ('/work/flat.npz', '/work/flat'):
+                    try:
+                        node = fs.lookup(cand)
+                        break
+                    except Exception:
+                        pass
+                if node is None or getattr(node, 'what', None) != 'npz':
+                    obl.fail('%s: no flat.npz written' % what)
+                    return obl
+                check_output(obl, dict(node.obj), ref, fields, limit, what)
+            return obl
+        return core.explore(path, max_paths=8)
+
     def one(fields, limit, serial, canary=False, again=False):
         def path(ctx):
             fs = SymFS()
@@ -133,6 +176,15 @@ def run_case(case):
                 if sig not in viol:
                     viol[sig] = {'signature': sig, 'what': msg, 'args': [fields, limit, serial]}
     fl_ = field_lists(ref.fields)
+    for fields, limit, serial in [(fl_[2 % len(fl_)], 0, True), (fl_[0], None, False)] + ([(fl_[1], ref.nlev - 1, True)] if ref.nlev > 1 else []):
+        results, exhaustive, stats = one_cli(fields, limit, serial)
+        res.add_explore(results, exhaustive, stats)
+        for ctx, obl in results:
+            res.add_obl(obl)
+            if obl.failed:
+                sig = 'C08/cli/%s' % ('limit' if limit is not None and limit < ref.nlev - 1 else 'finest')
+                if sig not in viol:
+                    viol[sig] = {'signature': sig, 'what': obl.failed[0][0], 'args': [fields, limit, serial], 'cli': cli_argv(fields, limit, serial)}
     for fields, limit, serial in [(fl_[3 % len(fl_)], None, False), (fl_[-1], 0, True)]:
         results, exhaustive, stats = one(fields, limit, serial, again=True)
         res.add_explore(results, exhaustive, stats)
@@ -182,7 +234,7 @@ def make_replay(ref, v):
         cov, lev = covering.covering(cref, lim, ref.fields.index(n))
         exp[n] = replay_lib._arr_hex(np.array(cov, dtype=float).T)
     _, lev = covering.covering(cref, lim, 0)
-    case = {'property': 'C08', 'handler': 'c08', 'signature': v['signature'], 'what': v['what'], 'args': v['args'], 'again': bool(v.get('again')),
+    case = {'property': 'C08', 'handler': 'c08', 'signature': v['signature'], 'what': v['what'], 'args': v['args'], 'again': bool(v.get('again')), 'cli': v.get('cli'),
             'expected': exp, 'grid_level': lev.T.tolist() if (fields == ['all'] or 'grid_level' in fields) else None,
             'x': [float(x) for x in covering.centres(ref, lim, 0)], 'y': [float(x) for x in covering.centres(ref, lim, 1)]}
     with open(os.path.join(d, 'case.json'), 'w') as f:
